@@ -388,7 +388,15 @@ func (c *SpecCtx) evalBinary(x *ast.BinaryExpr) *SV {
 			}
 			if tb.Sort == SInt {
 				if !tb.IsLit() {
-					c.fail("BV shift by non-constant Int in spec")
+					// shift by a symbolic Int amount: case split over 0..w-1 (0 beyond)
+					var res *Term = BVLit64(0, w)
+					if op == "bvashr" {
+						res = bvBin(op, ta, BVLit64(uint64(w-1), w))
+					}
+					for k := w - 1; k >= 0; k-- {
+						res = Ite(Eq(tb, IntLit(int64(k))), bvBin(op, ta, BVLit64(uint64(k), w)), res)
+					}
+					return &SV{V: scalar(res), T: a.T}
 				}
 				tb = BVLit(tb.IntVal, w)
 			} else if tb.Sort.BVWidth() != w {
@@ -968,6 +976,12 @@ func (c *SpecCtx) evalCall(x *ast.CallExpr) *SV {
 		}
 		ks, _ := vis.Sort.ArrayParts()
 		return boolSV(Select(vis, c.term(a, ks)))
+	case "byteAt":
+		// byteAt(arrayRef, absoluteIndex): a byte of a storage array
+		a := c.eval(x.Args[0])
+		i := c.term(c.eval(x.Args[1]), ex.env.IntS())
+		bt := types.Typ[types.Uint8]
+		return &SV{V: scalar(Select(Select(ex.elemArr(c.st, bt, "", SBV8), ex.valTerm(a.V)), i)), T: bt}
 	case "anyType":
 		a := c.eval(x.Args[0])
 		f := ex.env.d.Func("any_type", SBool, SRef)
